@@ -357,6 +357,18 @@ impl Error {
         Error::syntax(code, json, index)
     }
 
+    /// Like `rebase`, for an error found in `String::from_utf8_lossy(json)`: its index counts the
+    /// bytes of the repaired text and is mapped back to the input first.
+    #[cold]
+    pub(crate) fn rebase_lossy(self, json: &[u8]) -> Self {
+        if self.err.line == 0 {
+            return self;
+        }
+        let ErrorImpl { code, index, .. } = *self.err;
+        let index = crate::util::utf8::lossy_offset_to_origin(json, index).min(json.len());
+        Error::syntax(code, json, index)
+    }
+
     #[cold]
     pub(crate) fn ser_error(code: ErrorCode) -> Self {
         Error {
